@@ -51,7 +51,10 @@ PROPS = {
     },
     "C19": {
         "lean": ["IbcVerif.Props.C19"],
-        "engines": [purefn(["delay"], n=(1500, 60000), monitor=(2000, 80000))],
+        "engines": [purefn(["delay"], n=(1500, 60000), monitor=(2000, 80000)),
+                    # call-site half: real chains, connection with a delay period, timeout proofs at the latest or an
+                    # older stored consensus height, submitted at chosen moments relative to when THAT height was processed
+                    {"bin": "world", "model": "purefn", "groups": ["delay"], "n": (4, 60), "monitor": (3, 40), "workers": 8}],
         "trusted": ["time.Time <-> uint64 nanoseconds and chain-id revision parsing are exercised through the real sdk.Context in the harness (not modelled)",
                     "that every packet verification path of 03-connection passes (timeDelay, getBlockDelay) to the client is covered by the chain/world checks (C04-C06), not here"],
         "assumptions": ["all quantities are uint64"],
